@@ -7,8 +7,10 @@
 
 namespace {
 
-enum WKind { W_CORO = 0, W_WAIT, W_SYNC, W_CB, W_HASV, W_POLL, W_CBFN, W_NK };
-static const char *wk_names[] = {"coro", "wait", "sync", "cb", "hasv", "poll", "cbfn"};
+// opnot / opbool: a thread that asks `!f` / `bool(f)` - both documented to block like wait() while the future is pending
+enum WKind { W_CORO = 0, W_WAIT, W_SYNC, W_CB, W_HASV, W_POLL, W_CBFN, W_OPNOT, W_OPBOOL, W_NK };
+static const char *wk_names[] = {"coro", "wait", "sync", "cb", "hasv", "poll", "cbfn", "opnot", "opbool"};
+enum { W_PAIRED = W_OPNOT };  // kinds below this one are combined with each other in the two-waiter scenarios
 enum RKind { R_VAL = 0, R_EXC, R_DROP, R_DESTROY, R_ASYNC, R_ASYNCEXC, R_ASSIGN, R_NK };
 static const char *rk_names[] = {"val", "exc", "drop", "destroy", "async", "asyncexc", "assign"};
 
@@ -137,6 +139,15 @@ static void waiter_thread(cocls::future<Counted> &f, int id, int kind, CbAwaiter
             while (!f.ready()) vrt_yield();
             released(id, observe(f));
             break;
+        case W_OPNOT:
+        case W_OPBOOL: {
+            bool has = kind == W_OPNOT ? !(!f) : bool(f);
+            Obs o = observe(f);  // kind 4 = not resolved yet: the operator came back early
+            if (o.kind != 4 && has != (o.kind == 1 || o.kind == 2))
+                vrt_fail("future/has_value-mismatch", "%s said has_value=%d, the result is of kind %d", kind == W_OPNOT ? "operator!" : "operator bool", (int)has, o.kind);
+            released(id, o);
+            break;
+        }
     }
 }
 
@@ -370,8 +381,36 @@ static void throwing_factory_scenario(int wk) {
     vrt_outcome("ok");
 }
 
+// futures that are born resolved (static factories set_value / set_exception / set_not_value): a waiter of any kind that
+// comes afterwards is released at once with that result
+static void prefab_scenario(int wk, int how) {
+    int64_t *s = vrt_scratch();
+    {
+        cocls::future<Counted> f = how == 0   ? cocls::future<Counted>::set_value(Counted(42))
+                                   : how == 1 ? cocls::future<Counted>::set_exception(std::make_exception_ptr(TestError(77)))
+                                              : cocls::future<Counted>::set_not_value();
+        CbAwaiter cb(f, 0);
+        FnAwaiter fnaw(f);
+        FnCtx fnctx{&f, 0};
+        vstd::thread wt(waiter_thread, std::ref(f), 0, wk, &cb, &fnaw, &fnctx);
+        vrt_label("main-join-waiters");
+        wt.join();
+        vrt_label("main");
+        VRT_CHECK(s[S_REL] == 1, s[S_REL] ? "future/duplicate-wakeup" : "future/lost-wakeup", "waiter (%s) on a future born resolved was released %ld times", wk_names[wk], (long)s[S_REL]);
+        Obs expect = how == 0 ? Obs{1, 42} : how == 1 ? Obs{2, 77} : Obs{3, 0};
+        VRT_CHECK(s[S_KIND] == expect.kind && s[S_VAL] == expect.val, "future/wrong-result", "waiter saw kind=%ld val=%ld expected kind=%d val=%ld", (long)s[S_KIND], (long)s[S_VAL], expect.kind,
+                  expect.val);
+        VRT_CHECK(f.ready(), "future/not-resolved", "a future made by a static factory is not ready");
+    }
+    VRT_CHECK(Counted::live() == 0, "future/value-lifetime", "%ld Counted objects alive at the end", (long)Counted::live());
+    vrt_outcome("ok");
+}
+
 VRT_REGISTER(reg_wake) {
     vrt::add("wake1_callfn_reuse", [] { callfn_reuse_scenario(); });
+    static const char *prefab_names[] = {"val", "exc", "noval"};
+    for (int wk = 0; wk < W_NK; wk++)
+        for (int how = 0; how < 3; how++) vrt::add(std::string("wake1_prefab-") + prefab_names[how] + "_" + wk_names[wk], [=] { prefab_scenario(wk, how); });
     for (int n = 1; n <= 2; n++)
         for (int w = 0; w < 2; w++) vrt::add("wake2_rearm_others" + std::to_string(n) + (w ? "_second-has-waiter" : ""), [=] { rearm_scenario(n, w != 0); });
     for (int wk = 0; wk < W_NK; wk++) vrt::add(std::string("wake1_throwing-factory_") + wk_names[wk], [=] { throwing_factory_scenario(wk); });
@@ -386,8 +425,8 @@ VRT_REGISTER(reg_wake) {
             });
         }
         // two waiters: all unordered pairs
-        for (int a = 0; a < W_NK; a++)
-            for (int b = a; b < W_NK; b++) {
+        for (int a = 0; a < W_PAIRED; a++)
+            for (int b = a; b < W_PAIRED; b++) {
                 std::string name = std::string("wake2_") + wk_names[a] + "-" + wk_names[b] + "_" + rk_names[rk];
                 vrt::add(name, [=] {
                     int wk[3] = {a, b, 0};
